@@ -75,7 +75,10 @@ pub fn gen_work(ch: &mut Chooser, thorough: bool) -> Work {
         1 => Work::Util {
             elem: ch.index("w.elem", 5),
             op: ch.index("w.utilop", 5),
-            n: *ch.choose("w.n", &[1024usize, 1000, 1023, 1025, 2048, 4096, 5000, 8192]),
+            // lengths on both sides of the 1024-element threshold, and lengths that the number of
+            // batches (the pool size rounded up to a power of two) does not divide while every
+            // batch still has 1024 elements or more: the last batch is then a short one
+            n: *ch.choose("w.n", &[1024usize, 1000, 1023, 1025, 2048, 4096, 5000, 8192, 2049, 2051, 4097, 4098, 4102, 6151, 8191, 8193, 8196, 16385, 16390, 33000, 65537, 66051]),
             salt,
         },
         2 => Work::Merkle { hasher: ch.index("w.hasher", 3), log_leaves: *ch.choose("w.logleaves", &[11u32, 10, 12, if thorough { 13 } else { 11 }]), salt },
